@@ -1,3 +1,5 @@
+import TantivyModel.Proofs.SSTable.SearchOrd
+import TantivyModel.Proofs.SSTable.ValueFile
 import TantivyModel.Proofs.SSTable.StoreGroup
 import TantivyModel.Proofs.SSTable.BitPacker
 import TantivyModel.Proofs.SSTable.BitStream
@@ -793,6 +795,49 @@ theorem C15_store_block_get (rs rb os ob : Nat) (ref : BlockAddr) (more : List B
 example : (groupMeta 100 5 10 3 ⟨7, 1000, 1090⟩ [⟨16, 1090, 1200⟩, ⟨27, 1200, 1310⟩]).get
       (bitPack (groupFields 100 5 10 3 ⟨7, 1000, 1090⟩ [⟨16, 1090, 1200⟩, ⟨27, 1200, 1310⟩] 1310)) 1
     = some ⟨16, 1090, 1200⟩ := by decide
+
+/-- the same with values: a whole data region of a `MonotonicU64SSTable` — entries cut into blocks
+at any block length, each block written as value block (count, deltas) + front-coded keys,
+framed, end marker — read by `read_block` and decoded block by block gives back every key with its
+value -/
+theorem C15_u64_file_roundtrip (blockLen : Nat) (m : Assoc Nat) (tail : List UInt8) (hs : SortedMap m)
+    (hv : (m.map (·.2)).Pairwise (· ≤ ·))
+    (hsize : ∀ b ∈ blocksOf (fun e : Key × Nat => e.1) blockLen m, (payloadU64 b).length + 1 < 4294967296) :
+    (readBlocks ((blocksOf (fun e : Key × Nat => e.1) blockLen m).length + 1)
+        (frameBlocks ((blocksOf (fun e : Key × Nat => e.1) blockLen m).map payloadU64) ++ tail)).map
+      (fun bs => ((bs.filterMap isPlain).map decodePayloadU64).flatten) = some m :=
+  u64_file_roundtrip blockLen m tail hs hv hsize
+
+example : decodePayloadU64 (payloadU64 [(([1] : Key), 3), ([1, 2], 3), ([2], 10)]) = [([1], 3), ([1, 2], 3), ([2], 10)] := by
+  apply decodePayloadU64_payload
+  · exact (strictIncB_iff _).mp (by decide)
+  · decide
+
+example : (build 0 [(([1] : Key), 10), ([2], 20), ([3], 30), ([4], 40), ([5], 50)]).single = false ∧
+    (build 0 [(([1] : Key), 10), ([2], 20), ([3], 30), ([4], 40), ([5], 50)]).blocks.length = (3 - 1) * 2 + 0 + 1 ∧
+    locateOrdGen 2 3 (fun g => if g = 2 then 0 else 1)
+      (fun id => ((build 0 [(([1] : Key), 10), ([2], 20), ([3], 30), ([4], 40), ([5], 50)]).blocks.map (·.firstOrd)).getD id 0) 2
+      = (build 0 [(([1] : Key), 10), ([2], 20), ([3], 30), ([4], 40), ([5], 50)]).locateOrd 2 := by decide
+
+/-- the deviation of the reported ordinals is one-sided: every ordinal an automaton search reports
+is at most the true ordinal of its key (entries of pruned blocks are simply not counted) — for
+every automaton with sound `can_match`, sorted map, block length and bounds. With
+`C15_search_ordinal_counterexample` (strictly smaller after a pruned block) this pins down the
+known finding C15:search-stream-term-ord-after-pruned-block. -/
+theorem C15_search_ordinals_le {σ V} (A : Automaton σ) (hA : A.CanMatchSound) (blockLen : Nat)
+    (m : Assoc V) (hs : SortedMap m) (lo hi : Bound) :
+    ∀ p ∈ (build blockLen m).search A lo hi,
+      p.1 ≤ ordOf (keys m) p.2.1 ∧ termOrd m p.2.1 = some (ordOf (keys m) p.2.1) := by
+  intro p hp
+  refine ⟨search_ord_le A hA blockLen m hs lo hi p hp, ?_⟩
+  have hmem : (p.2.1, p.2.2) ∈ search A m lo hi := by
+    rw [← (C15_automaton_stream A hA blockLen m hs lo hi).1]
+    exact List.mem_map.mpr ⟨p, hp, rfl⟩
+  have hk : p.2.1 ∈ keys m := by
+    unfold search range at hmem
+    exact List.mem_map.mpr ⟨_, (List.mem_filter.mp (List.mem_filter.mp hmem).1).1, rfl⟩
+  rw [termOrd_eq_keys]
+  exact (findIdx_ordOf (keys m) p.2.1 hs hk).1
 
 /-! ## insertion order (DESIGN §8, F6) -/
 
